@@ -41,6 +41,7 @@ type PtrV struct {
 	// KElem
 	Arr, Idx *Term
 	ArrElem  types.Type // element type of the backing array (for reinterpreting casts)
+	End      *Term      // KElem from a slice: offset+len of that slice in the backing array (nil if unknown)
 	// KLocal
 	Cell *Cell
 	// KLocal/KField/KGlobal
